@@ -125,10 +125,71 @@ def rule_tables(prog, fixture=False):
                                         ok, why = True, "inside the success branch of check_sequence_fits, stepping one drive (2 surfaces) at a time"
                                     else:
                                         why = "the placement loop does not advance by the stride check_sequence_fits verified"
+                # (3) the slot comes from a search helper that returns a slot only after
+                #     check_sequence_fits succeeded for it, and the loop steps by the verified stride
+                if not ok:
+                    sv = strip_all(slot)
+                    if sv.get("k") == "DeclRefExpr":
+                        for v in fn.walk():
+                            if v.get("k") == "VarDecl" and v.get("d") == sv.get("d") and v.get("c"):
+                                src = _value_source_call(fn, v["c"][0])
+                                if src is not None:
+                                    for t in prog.call_targets(fn, src):
+                                        if _returns_only_checked_slots(prog, t) and _steps_by_two(fn, slot):
+                                            ok, why = True, "slot found by %s, which returns only slots for which " \
+                                                "check_sequence_fits succeeded; stepping one drive at a time" % t.qn
                 r.add(key, fn.loc(n), ok, why if ok else
                       "connect_internal(%s, ...) is not guarded by an occupancy test of that very slot%s: an image "
                       "can be attached on top of an occupied drive number" % (show(slot), ("; " + why) if why else ""))
     return r
+
+
+def _value_source_call(fn, e, depth=0):
+    """The call whose (optional) result the expression unwraps: *opt, opt.value(), opt where opt = f(...)."""
+    e = strip_all(e)
+    if e is None or depth > 4:
+        return None
+    if e.get("k") == "CXXOperatorCallExpr" and e.get("op") == "*" and len(e["c"]) >= 2:
+        return _value_source_call(fn, e["c"][1], depth + 1)
+    if e.get("k") == "CXXMemberCallExpr":
+        cal = strip(e["c"][0])
+        if cal and cal.get("n") == "value" and cal.get("c"):
+            return _value_source_call(fn, cal["c"][0], depth + 1)
+        return e
+    if e.get("k") == "CallExpr":
+        return e
+    if e.get("k") == "DeclRefExpr":
+        for v in fn.walk():
+            if v.get("k") == "VarDecl" and v.get("d") == e.get("d") and v.get("c"):
+                return _value_source_call(fn, v["c"][0], depth + 1)
+    if e.get("k") == "CXXConstructExpr" and len(e.get("c", [])) == 1:
+        return _value_source_call(fn, e["c"][0], depth + 1)
+    return None
+
+
+def _returns_only_checked_slots(prog, t):
+    g = Guards(t)
+    found = False
+    for n in t.walk():
+        if n.get("k") != "ReturnStmt" or not n.get("c"):
+            continue
+        e = strip_all(n["c"][0])
+        x = e
+        for _ in range(3):
+            if x is not None and x.get("k") == "CXXConstructExpr" and len(x.get("c", [])) == 1:
+                x = strip_all(x["c"][0])
+        if x is not None and x.get("k") == "DeclRefExpr" and x.get("n") == "nullopt":
+            continue
+        ok = False
+        for atom, truth in (g.truths(n) or []):
+            a = strip_all(atom)
+            if truth and is_call(a) and notpl(a.get("q") or "").endswith("check_sequence_fits") and \
+                    same_expr(call_args(a)[0], x):
+                ok = True
+        if not ok:
+            return False
+        found = True
+    return found
 
 
 def _steps_by_two(fn, slot):
